@@ -154,6 +154,8 @@ def oracleC08 (c : TCase) : Verdict :=
          | ["str", m] => if m == s!"LengthDelimited({s.left})" then s else { s with fail := some s!"body mode {m}, expected LengthDelimited({s.left}): {t.raw}" }
          | _ => s)
       | "proceed" | "proceed!" =>
+        -- entering the body state counts as being in the body, also before the first read
+        if (match t.res with | "state" :: "recvBody" :: _ => true | _ => false) then { s with inBody := true } else
         if !s.inBody && t.st != "recvBody" && s.left == N then s else
         (match t.res with
          | "state" :: _ => if s.left == 0 || !s.inBody then s else { s with fail := some s!"left the body with {s.left} bytes outstanding: {t.raw}" }
